@@ -12,14 +12,18 @@ ALPHABET = "abcxyz019 _-é日ß\U0001F600AZ"
 # and in ECMA 262 with the same meaning on these examples.
 PATTERNS = {
     "^a": (["a", "ab", "abc", "a1", "aé"], ["", "b", "ba", "xa", "1a"]),
-    "b$": (["b", "ab", "xb", "1b"], ["", "a", "ba", "bx"]),
-    "^[a-c]+$": (["a", "abc", "cab", "bb"], ["", "d", "abd", "a1", "A"]),
+    # (the strings ending in a line terminator, and the digits / letters outside ASCII, are where Python's `re`
+    # and ECMA 262 - the dialect Draft 6 prescribes - part ways: known finding F41 of C01)
+    "b$": (["b", "ab", "xb", "1b", "ab\n"], ["", "a", "ba", "bx", "b\n\n"]),
+    "^[a-c]+$": (["a", "abc", "cab", "bb", "abc\n"], ["", "d", "abd", "a1", "A"]),
+    "^\\d+$": (["1", "42", "007", "\u0663", "4\n"], ["", "a", "1a", "-1"]),
+    "^\\w.$": (["ab", "_1", "\u00e9x", "a\r"], ["", "a", "-a", "abc"]),
     "^x_": (["x_", "x_a", "x_1"], ["", "x", "ax_", "y_a"]),
     "[0-9]": (["1", "a1", "019", "x9y"], ["", "a", "abc", "é"]),
-    "^(foo|bar)$": (["foo", "bar"], ["", "fo", "foobar", "baz", "Foo"]),
-    "^..$": (["ab", "é1", "日x"], ["", "a", "abc"]),
+    "^(foo|bar)$": (["foo", "bar", "foo\n"], ["", "fo", "foobar", "baz", "Foo"]),
+    "^..$": (["ab", "é1", "日x", "a\u2028"], ["", "a", "abc", "ab\n"]),
     "é": (["é", "aé", "éé1"], ["", "e", "abc"]),
-    "^$": ([""], ["a", " ", "ab"]),
+    "^$": (["", "\n"], ["a", " ", "ab"]),
     "o": (["o", "foo", "oo", "xo"], ["", "a", "bar", "0"]),
     "^[A-Z]": (["A", "Zb", "AZ"], ["", "a", "1A", "éA"]),
     # back-references (same meaning in Python re and ECMA 262)
@@ -502,7 +506,7 @@ def mutate(rng, value, keys=None):
         return out
     if isinstance(value, str):
         return rng.choice(
-            [value + "a", value[:-1], value + value, "a" + value, value.upper(), "", 0, None, [value]]
+            [value + "a", value[:-1], value + value, "a" + value, value.upper(), "", 0, None, [value], value + "\n"]
         )
     return random_value(rng, 1)
 
